@@ -24,6 +24,8 @@ pub enum Shape {
     NoStatus,
     NoPorts,
     BadAddress,
+    /// a status object without the optional keys (`ports`, `counters`, `lists`) at all
+    PortsKeyMissing,
 }
 
 #[derive(Clone, Debug, Serialize, Deserialize, PartialEq)]
@@ -103,6 +105,12 @@ fn object(ns: &str, name: &str, g: &Gs, rv: u64) -> Value {
             "counters": g.counters.iter().map(|(k, v)| (k.clone(), json!({"count": v, "capacity": 100}))).collect::<serde_json::Map<_, _>>(),
             "lists": g.lists.iter().map(|(k, v)| (k.clone(), json!({"capacity": 10, "values": v}))).collect::<serde_json::Map<_, _>>(),
         });
+        if g.shape == Shape::PortsKeyMissing {
+            let st = o["status"].as_object_mut().unwrap();
+            st.remove("ports");
+            st.remove("counters");
+            st.remove("lists");
+        }
     }
     o
 }
@@ -363,7 +371,7 @@ fn gs() -> BoxedStrategy<Gs> {
     (
         0u8..6,
         prop_oneof![4 => Just("Ready"), 2 => Just("Allocated"), 3 => proptest::sample::select(STATES.to_vec())],
-        prop_oneof![8 => Just(Shape::Ok), 1 => Just(Shape::NoStatus), 1 => Just(Shape::NoPorts), 1 => Just(Shape::BadAddress)],
+        prop_oneof![8 => Just(Shape::Ok), 1 => Just(Shape::NoStatus), 1 => Just(Shape::NoPorts), 1 => Just(Shape::BadAddress), 1 => Just(Shape::PortsKeyMissing)],
         prop_oneof![3 => (1u8..250, 1u8..250).prop_map(|(a, b)| format!("10.{a}.0.{b}")), 1 => Just("2001:db8::7".to_string())],
         proptest::collection::vec(1u16..65535, 1..3),
         proptest::collection::btree_map("c-[a-z]{1,5}", proptest::option::of(0u32..200), 0..3),
@@ -428,7 +436,7 @@ impl Check for C20 {
         (v, info)
     }
     fn rule(&self) -> String {
-        "per namespace a history of 3-14 (quick) / 3-40 (thorough) steps over up to 6 GameServer names: initial list contents; ADDED/MODIFIED with state from {Scheduled, Ready, Allocated, Reserved, Shutdown, Unhealthy}, address, ports, counters, lists, labels, annotations; updates that make an object unconvertible (no status, no ports, bad address); DELETED; BOOKMARK; dropped watch connection; 410 Gone followed by a re-list with generated contents. non-trivial = the history deletes an offered server, re-lists, or moves an offered server to a non-ready state; distinct = distinct case".into()
+        "per namespace a history of 3-14 (quick) / 3-40 (thorough) steps over up to 6 GameServer names: initial list contents; ADDED/MODIFIED with state from {Scheduled, Ready, Allocated, Reserved, Shutdown, Unhealthy}, address, ports, counters, lists, labels, annotations; updates that make an object unconvertible (no status, no ports, no `ports` key, bad address); DELETED; BOOKMARK; dropped watch connection; 410 Gone followed by a re-list with generated contents. non-trivial = the history deletes an offered server, re-lists, or moves an offered server to a non-ready state; distinct = distinct case".into()
     }
     fn assumptions(&self) -> Vec<String> {
         vec![
